@@ -87,3 +87,62 @@ def cell_entry_rule(F, S, R):
                 R.bad(key, "%s: CellEntry.%s is not derived from %s (%s)" % (fn, f, srcs, c.where()), [c.where()])
             else:
                 R.ok(key, "%s: CellEntry.%s derives from %s" % (K.short(fn), f, srcs or "the output"), [c.where()])
+
+
+# ------------------------------------------------------------------ EFFECTSITES tables (DESIGN 3.14)
+# mutators of protected state: callee -> {caller root regex: (reviewed number of call sites, what each is for)}
+ST_ = r"^ckb_store::transaction::StoreTransaction::"
+RECONCILE = r"^ckb_chain::verify::ConsumeUnverifiedBlockProcessor::reconcile_main_chain$"
+ROLLBACK = r"^ckb_chain::verify::ConsumeUnverifiedBlockProcessor::rollback$"
+VBLOCK = r"^ckb_chain::verify::ConsumeUnverifiedBlockProcessor::verify_block$"
+TRUNC = r"^ckb_chain::verify::ConsumeUnverifiedBlockProcessor::truncate$"
+INIT = r"^ckb_store::db::ChainDB::init$"
+EFFECT_TABLES = {
+    "main-chain": [
+        ("attach_block", ST_ + "attach_block$", {RECONCILE: (3, "verified prefix, freshly verified block, disable_all arm"), INIT: (1, "genesis")}),
+        ("detach_block", ST_ + "detach_block$", {ROLLBACK: (1, "one per detached block, newest first")}),
+        ("attach_block_cell", r"^ckb_store::cell::attach_block_cell$", {RECONCILE: (3, "next to every attach_block"), INIT: (1, "genesis")}),
+        ("detach_block_cell", r"^ckb_store::cell::detach_block_cell$", {ROLLBACK: (1, "next to detach_block")}),
+        ("insert_tip_header", ST_ + "insert_tip_header$", {VBLOCK: (1, "new best block"), TRUNC: (1, "truncate target"), INIT: (1, "genesis")}),
+        ("insert_current_epoch_ext", ST_ + "insert_current_epoch_ext$", {VBLOCK: (1, "new epoch or detached blocks"), TRUNC: (1, "truncate target's epoch"), INIT: (1, "genesis")}),
+    ],
+    "verdicts": [
+        ("insert_block_ext", ST_ + "insert_block_ext$", {
+            r"^ckb_chain::verify::ConsumeUnverifiedBlockProcessor::insert_(ok|failure)_ext$": (2, "verdict of a verified block"), VBLOCK: (1, "ext of a freshly received block, verified = None"),
+            INIT: (1, "genesis"), r"^ckb_migrate::": (1, "migration")}),
+        ("insert_epoch_ext", ST_ + "insert_epoch_ext$", {VBLOCK: (1, "epoch head"), INIT: (1, "genesis")}),
+        ("delete_block", ST_ + "delete_block$", {r"^ckb_chain::delete_unverified_block$": (1, "invalid block / expired orphan"), TRUNC: (1, "attached side of a truncate fork (empty)")}),
+    ],
+    "pool": [
+        ("remove_entry", r"^ckb_tx_pool::component::pool_map::PoolMap::remove_entry$", {
+            r"PoolMap::remove_entry_and_descendants$": (1, "each collected id"), r"TxPool::remove_committed_tx$": (1, "committed on chain"), r"TxPool::remove_expired$": (1, "older than expiry")}),
+        ("remove_entry_and_descendants", r"^ckb_tx_pool::component::pool_map::PoolMap::remove_entry_and_descendants$", {
+            r"PoolMap::check_and_record_ancestors$": (1, "evict a cell-dep referrer under the ancestor limit"), r"PoolMap::resolve_conflict$": (2, "input and dep conflicts of a committed tx"),
+            r"PoolMap::resolve_conflict_header_dep$": (1, "dependants of a detached header"), r"PoolMap::resolve_missing_outputs$": (1, "spenders of a detached tx that cannot return (F17)"),
+            r"TxPool::limit_size$": (1, "size-limit eviction"), r"TxPool::remove_by_detached_proposal$": (1, "detached proposal"), r"TxPool::remove_tx$": (1, "rpc remove_transaction"),
+            r"TxPoolService>::process_rbf$": (1, "replaced by fee")}),
+        ("add_entry", r"^ckb_tx_pool::component::pool_map::PoolMap::add_entry$", {r"TxPool::add_(pending|gap|proposed)$": (3, "one per stage")}),
+    ],
+    "proposal-table": [
+        ("table-update", r"^ckb_proposal_table::ProposalTable::(insert|remove)$", {
+            r"ConsumeUnverifiedBlockProcessor::update_proposal_table$": (2, "remove each detached number, insert each attached"), r"ConsumeUnverifiedBlockProcessor::reload_proposal_table$": (1, "rows below the fork"),
+            r"SharedBuilder::init_proposal_table$": (1, "start-up rebuild")}),
+    ],
+    "freeze": [
+        ("wipe", r"^ckb_store::write_batch::StoreWriteBatch::delete_block(_body)?$", {
+            r"^ckb_shared::shared::Shared::wipe_out_frozen_data$": (2, "bodies of frozen main-chain blocks, whole side-chain blocks"), r"StoreWriteBatch::delete_block$": (1, "delete_block = header + delete_block_body")}),
+        ("freezer-truncate", r"^ckb_freezer::freezer_files::FreezerFiles::truncate$", {r"^ckb_freezer::freezer::Freezer::truncate$": (1, "the only entry")}),
+    ],
+    "commitments": [
+        ("header-digest", ST_ + "insert_header_digest$", {r"MMRStore<.*HeaderDigest>>::append$": (1, "MMR node store")}),
+        ("block-filter", ST_ + "insert_block_filter$", {r"^ckb_block_filter::filter::BlockFilter::build_filter_data_for_block$": (1, "the filter builder")}),
+    ],
+}
+
+
+def effects(R, F, groups, prefix="effects"):
+    """evaluate the EFFECTSITES tables of the named groups"""
+    for g in groups:
+        for name, callee, table in EFFECT_TABLES[g]:
+            key = "%s/%s/%s" % (prefix, g, name)
+            R.guard(key, lambda key=key, callee=callee, table=table, name=name: K.effect_sites(R, key, F, callee, table, what="who may %s, and how often" % name))
